@@ -36,3 +36,23 @@ prop("C04",
      quick=dict(shards=2, timeout=300), thorough=dict(shards=16, timeout=1500),
      assumptions=COMMON + ["instants within 0.01 ms of a breakpoint that is not a whole second accept both neighbouring answers (float64 seconds in the code)",
                            "'gone' is required one hour after A_n+tsbd at the latest; the exact 10 s margin is not asserted"])
+
+prop("C01",
+     rule="rapid draws (asset: bundled or generated layout with 1-6 segments, uniform/alternating/irregular durations, 9 clocks incl. 1001-based, "
+          "1-2 fragments per segment; representation video / stpp text (plain and image subtitles) / thumbnails; start, startNumber; live index n "
+          "right after start, around loop wraps, many wraps, year-2026 and year-2090 distance, near number 2^32). For each case the segment is "
+          "fetched by Number, by Time and by Timeline-Number and parsed independently: sequence number, per-fragment tfdt = VoD tfdt + w*L, full "
+          "sample list incl. payload located through trun.data_offset, sidx, byte-identical thumbnails, TTML timestamps moved by round(offset), "
+          "identical bytes for all three addressing modes, and segment n+1 starting where n ends. Non-trivial = w>=1, tfdt>=2^32, a wrap pair, "
+          "or start/startNumber != 0; distinct by hash of the case.",
+     quick=dict(shards=2, timeout=300), thorough=dict(shards=16, timeout=1500), assumptions=COMMON)
+
+prop("C03",
+     rule="rapid draws (asset with audio: bundled, or generated layout with AAC-1024 / AC-3-1536 frames, audio grid following the video grid, "
+          "fixed independent grid or one single audio segment, audio loop equal / 1-3 frames shorter / 1-3 frames longer than the video loop, "
+          "9 video clocks incl. 1001-based; addressing Number/Time/Timeline-Number; start, startNumber; live index n in the regimes first / wrap / "
+          "many wraps / year-2026 / year-2090). Oracle: independent frame model aS=ceilF(start_n), aE=ceilF(end_n), frame at T is VoD frame "
+          "(T-ceilF(wL))/F or the last VoD frame when past the VoD audio; payload comparison with the VoD frames; n+1 abuts; Number==Time bytes; "
+          "the MPD's audio SegmentTimeline equals the model for every listed entry. Non-trivial = segment adjacent to a wrap, with padding, or "
+          "whose frames span two VoD audio segments; distinct by hash of the case.",
+     quick=dict(shards=2, timeout=300), thorough=dict(shards=16, timeout=1500), assumptions=COMMON)
